@@ -248,7 +248,8 @@ where
     let mk = |raw: &Vec<u64>| F::from_fn(|i| <F::Sample as Smp>::from_raw(raw[i]));
     let mut req = format!("{} {} {} {} {}", stream, X::<F>::NAME, MODE, ch, n);
     let res = guarded(|| {
-        let mut rms: Rms<F, Vec<F::Float>> = Rms::new(Fixed::from(vec![F::Float::EQUILIBRIUM; n]));
+        // the zero-initialised window may sit at any rotation of its ring buffer (`first` index): the detector must not care
+        let mut rms: Rms<F, Vec<F::Float>> = Rms::new(Fixed::from_raw_parts((ops.len() * 5 + ch) % n.max(1), vec![F::Float::EQUILIBRIUM; n]));
         let mut v = Vec::new();
         for op in ops {
             match op {
@@ -426,7 +427,7 @@ where
     let mut refs: Vec<Ref> = (0..ch).map(|_| { let mut r = Ref::new(n); r.exact = grid; r }).collect();
     let fails_before = st.oracle_failures.len();
     let res = guarded(|| {
-        let mut rms: Rms<F, Vec<F::Float>> = Rms::new(Fixed::from(vec![F::Float::EQUILIBRIUM; n]));
+        let mut rms: Rms<F, Vec<F::Float>> = Rms::new(Fixed::from_raw_parts((len + run as usize) % n.max(1), vec![F::Float::EQUILIBRIUM; n]));
         let mut checked = 0u64;
         for i in 0..len {
             let raw = gen_frame(rng, i);
@@ -514,7 +515,7 @@ where
     let fs: Vec<F> = frames.iter().map(|raw| F::from_fn(|i| <F::Sample as Smp>::from_raw(raw[i]))).collect();
     let mut req = format!("sig {} {} {} {} {} {}", X::<F>::NAME, MODE, if squared { "q" } else { "n" }, ch, n, k);
     for f in &fs { req.push(' '); req.push_str(&frame_tok(f.to_float_frame())); }
-    let ring = || Fixed::from(vec![F::Float::EQUILIBRIUM; n]);
+    let ring = || Fixed::from_raw_parts((k + fs.len()) % n.max(1), vec![F::Float::EQUILIBRIUM; n]);
     let res = guarded(|| {
         // source 1: a counting generator (one call per `Signal::next` on the source)
         let mut pulls = 0usize;
